@@ -120,22 +120,22 @@ func enum(tier string) []Input {
 			out = append(out, Input{Writes: []segu.Write{w}, Queries: qs})
 		}
 	}
-	// E2: every sequence of two writes over a 14-slot window, every aligned range
+	// E2: every sequence of two writes over a 12-slot window, every aligned range
 	{
-		lo, size := B-7, int64(14)
+		lo, size := B-6, int64(12)
 		qs := allRanges(lo, size)
-		ps := place(lo, size, 14)
+		ps := place(lo, size, 12)
 		for _, w1 := range ps {
 			for _, w2 := range ps {
 				out = append(out, Input{Writes: []segu.Write{w1, w2}, Queries: qs})
 			}
 		}
 	}
-	// E3: every sequence of three writes over a 7-slot window, every aligned range
+	// E3: every sequence of three writes over a 6-slot window, every aligned range
 	{
-		lo, size := B-3, int64(7)
+		lo, size := B-3, int64(6)
 		qs := allRanges(lo, size)
-		ps := place(lo, size, 7)
+		ps := place(lo, size, 6)
 		for _, w1 := range ps {
 			for _, w2 := range ps {
 				for _, w3 := range ps {
@@ -144,14 +144,15 @@ func enum(tier string) []Input {
 			}
 		}
 	}
-	// E4: every sequence of two writes (all spans <= 25) over the 25-slot window; ranges: the whole
-	// window and the split triples through the write ends
+	// E4: sequences of two writes (all spans <= 25) over the 25-slot window, a systematic 1-in-16 sample
+	// of all 105,625 (the full set is ~430 MB of Coq terms); ranges: the whole window and the split
+	// triples through the write ends
 	{
 		lo, size := B-12, int64(25)
 		ps := place(lo, size, 25)
 		for i, w1 := range ps {
 			for j, w2 := range ps {
-				if tier != "thorough" && (i*len(ps)+j)%97 != 0 {
+				if (i*len(ps)+j)%16 != 0 {
 					continue
 				}
 				pts := []int64{lo, segu.UnixSlot(w1.St), segu.UnixSlot(w1.Et), segu.UnixSlot(w2.St), segu.UnixSlot(w2.Et), lo + size}
@@ -265,5 +266,5 @@ func cutsPresent(n *segment.VerifNode, q segu.Query) bool {
 }
 
 func main() {
-	lib.Main(lib.Harness[Input]{Prop: "C03", Quick: 500, Thorough: 12000, Gen: gen, Enum: enum, Run: run})
+	lib.Main(lib.Harness[Input]{Prop: "C03", Quick: 500, Thorough: 3000, Gen: gen, Enum: enum, Run: run})
 }
